@@ -398,6 +398,7 @@ type remoteLayout struct {
 	Reqs       []int  `json:"request_sizes"`
 	CaseTwins  bool   `json:"case_twins,omitempty"`  // page addresses differ only in letter case
 	PathCursor bool   `json:"path_cursor,omitempty"` // page addresses carry an escaped cursor in the path
+	NoIDs      bool   `json:"no_ids,omitempty"`      // the collection and its pages carry no id member
 	RefStyle   []int  `json:"ref_style,omitempty"`   // per page: successor written as 0 address | 1 {id} | 2 {id,type}
 	Nulls      bool   `json:"nulls,omitempty"`       // the last page says "next": null instead of leaving it out
 }
@@ -436,6 +437,7 @@ func remoteCase(c *ev.Ctx, s *sim.Sim, r *rand.Rand, n int) {
 	base := fmt.Sprintf("https://%s/c10/%d-%d-%d", s.Host(2), c.R.Shard, n, r.Intn(1<<30))
 	l.CaseTwins, l.Nulls = r.Intn(4) == 0, r.Intn(4) == 0
 	l.PathCursor = !l.CaseTwins && r.Intn(5) == 0
+	l.NoIDs = r.Intn(6) == 0
 	l.RefStyle = make([]int, np+1)
 	if r.Intn(3) == 0 {
 		for i := range l.RefStyle {
@@ -470,6 +472,9 @@ func remoteCase(c *ev.Ctx, s *sim.Sim, r *rand.Rand, n int) {
 	tag := func(p, i int) string { return fmt.Sprintf("e-%d-%d", p, i) }
 	for p := 0; p <= np; p++ {
 		doc := map[string]any{"id": addr(p), "type": kind}
+		if l.NoIDs {
+			delete(doc, "id") // a document without an id of its own: the address it was fetched from is its base
+		}
 		nextKey := "first"
 		if p > 0 {
 			doc["type"] = kind + "Page"
@@ -679,6 +684,15 @@ func randomCase(r *rand.Rand) caseDesc {
 			l.Sizes[p] = 0
 		}
 	}
+	big := r.Intn(12) == 0
+	if big {
+		// pages larger than any batch size an implementation might use internally (8, 16, 32, 64), asked for in large requests
+		for p := range l.Sizes {
+			if r.Intn(2) == 0 {
+				l.Sizes[p] = 17 + r.Intn(60)
+			}
+		}
+	}
 	l.Decoys = r.Intn(2) == 0
 	if np > 1 && r.Intn(4) == 0 {
 		l.Broken = 1 + r.Intn(np-1)
@@ -687,6 +701,9 @@ func randomCase(r *rand.Rand) caseDesc {
 	nreq := r.Intn(8)
 	req := make([]int, nreq)
 	choices := []int{0, 1, 2, 3, 5, 6, 50, 1, 2, 7}
+	if big {
+		choices = []int{17, 20, 31, 33, 45, 50, 63, 65, 100, 5}
+	}
 	for i := range req {
 		req[i] = choices[r.Intn(len(choices))]
 	}
